@@ -53,6 +53,18 @@ pub fn vx_patch_u32(c: &mut BytesMut, pos: usize, v: u32)
 }
 
 
+/// `(&mut c.as_mut()[pos..pos + 2]).write_u16::<NetworkEndian>(v).unwrap()`: overwrites two bytes in place
+#[verifier::external_body]
+pub fn vx_patch_u16(c: &mut BytesMut, pos: usize, v: u16)
+    requires pos + 2 <= (*old(c)).bytes().len(),
+    ensures
+        (*final(c)).bytes().len() == (*old(c)).bytes().len(),
+        (*final(c)).bytes() == (*old(c)).bytes().subrange(0, pos as int) + be16(v) + (*old(c)).bytes().subrange(pos + 2, (*old(c)).bytes().len() as int),
+{
+    use byteorder::{NetworkEndian, WriteBytesExt};
+    (&mut c.as_mut()[pos..pos + 2]).write_u16::<NetworkEndian>(v).unwrap();
+}
+
 #[verifier::external_type_specification]
 #[verifier::external_body]
 pub struct ExIoError(std::io::Error);
